@@ -45,8 +45,12 @@ def atom_calls(atom, line, cls, pkg):
 
 def rand_atoms(rng):
     atoms = _rand_atoms(rng)
-    # keep assertions reached through a helper below the duplicate-assert limit (2 helper calls x <=2 assertions):
-    # whether inlined helper assertions count towards "called at least 5 times" is not decided by the statement
+    # mostly keep assertions reached through a helper below the duplicate-assert limit (2 helper calls x <=2 assertions):
+    # whether inlined helper assertions count towards "called at least 5 times" is not decided by the statement. One case in
+    # eight calls the helper again and again (model and code must still agree - each invocation is inlined -, the oracle
+    # leaves DuplicateAssertTest of that class open)
+    if rng.random() < 0.12:
+        return atoms + ["helper_assert"] * rng.choice([3, 4, 5])
     out, n = [], 0
     for a in atoms:
         if a == "helper_assert":
@@ -264,6 +268,14 @@ def oracle(case, out, raw):
     got = [(f["Type"], f["FileName"], f["Line"] if f["Type"] in ("RedundantPrintTest", "SleepyTest") else None) for f in out["findings"]]
     if any(f["FileName"] == "" for f in out["findings"]):
         ds.append(("finding-without-file", "a finding does not name its file"))
+    # a class in which some test reaches an assertion five times only THROUGH A HELPER: the statement does not say whether
+    # that is "called at least 5 times" - DuplicateAssertTest of that file is judged by the model correspondence only
+    for ac in case["classes"]:
+        for m in ac["methods"]:
+            inl = sum(ac["helpers"]["helpAssert"].count("hassert") for a in m["atoms"] if a == "helper_assert")
+            if inl >= 5:
+                exp = [x for x in exp if not (x[0] == "DuplicateAssertTest" and x[1] == ac["path"])]
+                got = [x for x in got if not (x[0] == "DuplicateAssertTest" and x[1] == ac["path"])]
     e, g = sorted(map(str, exp)), sorted(map(str, got))
     if e == g:
         return ds
